@@ -5,6 +5,7 @@
  *     c                          clone, serialize the clone     => C1 | C0:<hex>
  *     v:<policy>:<doc|->:<level> KSI_SignatureVerifier_verify   => V<st>:<res>:<err>/F<st>:<res>:<err>   (F: fresh context, fresh parse)
  *     a:<policy>:<doc|->:<level> KSI_Signature_verifyWithPolicy => A<st>/F<st>
+ *     w:<policy>:<doc|->:<level> the same through ONE caller-owned verification context used for the whole history => A<st>/F<st>
  *     x / xt:<time>              extend / extendTo (no extender is configured: fails) => X<st>
  *     b:<chain-hex>              builder: prepend a local aggregation chain => B<st>[:<len of the new signature>]
  *     r:<level>                  builder: set the aggregation start level and close => R<st>
@@ -61,7 +62,9 @@ static void do_line(char *work, const char *orig) {
 	(void)orig;
 	if (n >= 2 && !strcmp(w[0], "h")) {
 		KSI_CTX *ctx = NULL; KSI_Signature *sig = NULL; size_t len; unsigned char *raw = unhex(w[1], &len); int r;
+		KSI_VerificationContext shared;
 		KSI_CTX_new(&ctx);
+		KSI_VerificationContext_init(&shared, ctx);
 		KSI_CTX_setLoggerCallback(ctx, log_cb, NULL);
 		r = KSI_Signature_parseWithPolicy(ctx, raw, len, KSI_VERIFICATION_POLICY_EMPTY, NULL, &sig);
 		if (r != KSI_OK) { printf("P%d", r); KSI_CTX_free(ctx); free(raw); return; }
@@ -74,7 +77,7 @@ static void do_line(char *work, const char *orig) {
 				KSI_Signature *cl = NULL; r = KSI_Signature_clone(sig, &cl);
 				if (r != KSI_OK) printf("CE%d", r); else put_ser(cl, raw, len, 'C');
 				KSI_Signature_free(cl);
-			} else if (!strncmp(op, "v:", 2) || !strncmp(op, "a:", 2)) {
+			} else if (!strncmp(op, "v:", 2) || !strncmp(op, "a:", 2) || !strncmp(op, "w:", 2)) {
 				char *f[4]; int k = 0; char *p = op + 2, *q; KSI_DataHash *doc = NULL; const KSI_Policy *pol; unsigned long long level;
 				while (k < 3 && (q = strchr(p, ':')) != NULL) { *q = 0; f[k++] = p; p = q + 1; }
 				f[k++] = p;
@@ -86,6 +89,7 @@ static void do_line(char *work, const char *orig) {
 					free(d);
 				}
 				if (op[0] == 'v') verify_on(ctx, sig, pol, doc, level, 'V');
+				else if (op[0] == 'w') printf("A%d", KSI_Signature_verifyWithPolicy(sig, doc, level, pol, &shared));
 				else printf("A%d", KSI_Signature_verifyWithPolicy(sig, doc, level, pol, NULL));
 				{	/* the same question put to a fresh parse in a fresh context */
 					KSI_CTX *c2 = NULL; KSI_Signature *s2 = NULL; KSI_DataHash *d2 = NULL;
@@ -150,6 +154,7 @@ static void do_line(char *work, const char *orig) {
 				KSI_Signature_free(os); free(o);
 			} else printf("BAD-OP");
 		}
+		KSI_VerificationContext_clean(&shared);
 		KSI_Signature_free(sig);
 		KSI_CTX_free(ctx);
 		free(raw);
